@@ -1,3 +1,4 @@
+from copy import copy
 
 from astropy.nddata.mixins.ndslicing import NDSlicingMixin
 from astropy.wcs.wcsapi.wrappers.sliced_wcs import sanitize_slices
@@ -31,7 +32,8 @@ class NDCubeSlicingMixin(NDSlicingMixin):
                      for axis_item, axis_length in zip(item, self.shape))
         sliced_cube = super().__getitem__(item)
 
-        sliced_cube._global_coords._internal_coords = self.global_coords._internal_coords
+        # A copy: adding a coordinate to one of the two cubes must not add it to the other.
+        sliced_cube._global_coords._internal_coords = copy(self.global_coords._internal_coords)
         sliced_cube._extra_coords = self.extra_coords[item]
 
         return sliced_cube
